@@ -20,7 +20,9 @@ RULE = (
     'or a rejection pair, or a reciprocal pair. Round 4: degR inside compound expressions, as reciprocal, and '
     'refused against other powers (strategy rankine). Later rounds: float32 / float16 / integer-array / Decimal '
     'magnitudes (typed_input), to(None), reciprocal conversions of quantities that carry a relative error, Unit() '
-    'attributes read, converted in place and read again (unit_object). Distinct = distinct case JSON.'
+    'attributes read, converted in place and read again (unit_object). Rounds 7-8: unit-system atoms raised to '
+    'powers (strategy system); unreduced exponent spellings of the radian (rad2:2). Distinct = distinct case '
+    'JSON.'
 )
 ASSUMPTIONS = [
     "temperature (Cel, degF) and logarithmic units are excluded here (C05)",
